@@ -1,3 +1,5 @@
+pub mod flw;
+pub mod flwgen;
 pub mod spec;
 
 use crate::util::tokens;
@@ -9,6 +11,14 @@ pub fn generate(prop: &str, tier: &str, seed: u64) -> Vec<Vec<String>> {
         "C02" => spec::gen_c02(tier, seed),
         "C05" => spec::gen_c05(tier, seed),
         "C17" => spec::gen_c17(tier, seed),
+        "C01" => flwgen::gen_c01(tier, seed),
+        "C06" => flwgen::gen_c06(tier, seed),
+        "C07" => flwgen::gen_c07(tier, seed),
+        "C08" => flwgen::gen_c08(tier, seed),
+        "C09" => flwgen::gen_c09(tier, seed),
+        "C15" => flwgen::gen_c15(tier, seed),
+        "C18" => flwgen::gen_c18(tier, seed),
+        "C19" => flwgen::gen_c19(tier, seed),
         _ => {
             eprintln!("no generator for {prop}");
             std::process::exit(2);
@@ -28,6 +38,7 @@ pub fn execute(ctx: &mut Ctx, lines: &[String]) -> Vec<String> {
     ctx.report.evaluations += 1;
     match hdr[1] {
         "spec" => spec::execute(ctx, lines),
+        "flw" => flw::execute(ctx, lines),
         m => panic!("unknown model {m}"),
     }
 }
